@@ -485,5 +485,80 @@ def r19_9(ctx):
     return r
 
 
+R19_10_STRICT = True
+R19_11_STRICT = True
+
+
+def r19_10(ctx):
+    """'... and is dropped rather than handed to a receiver of another media section': the last two demux stages pick a
+    route by what it LISTS (a payload type) or by being the only provisional one - not by what the packet says. A packet
+    that names a media section (MID) for which no receiver is registered used to fall through to them and was handed to
+    whichever other section listed its payload type. A route knows its own section (`ListenerRoute.mid`); the two
+    stages must not pick a route whose section differs from the one the packet names. Decided: unique_by_pt and
+    single_provisional read `route.mid` (directly or through a helper they call) when filtering, and receive() passes
+    them the MID taken from the packet."""
+    r = RuleResult("R19.10", "K6", "payload-type and provisional routing never pick a route of another media section")
+    if not R19_10_STRICT:
+        r.ok({"status": "armed together with the repair"})
+        return r
+    for fn in ("transports::rtp::ListenerRegistry::unique_by_pt", "transports::rtp::ListenerRegistry::single_provisional"):
+        fam = [nb for nb in ctx.facts.all_bodies() if nb.name == fn or nb.name.startswith(fn + "::{closure")]
+        if not fam:
+            raise core.CheckerError("R19.10: %s not found" % fn)
+        r.scope.append(fn)
+        callees = set()
+        for nb in fam:
+            for bi, t, p in nb.calls():
+                if p and p.startswith("transports::rtp::") and ctx.facts.has_body(p):
+                    callees.add(p)
+        bodies = fam + [ctx.facts.body(c) for c in callees]
+        reads_mid = False
+        for nb in bodies:
+            for sb in range(len(nb.blocks)):
+                if nb.blocks[sb]["t"]["k"] == "switch" and sb not in nb.cleanup and mir.has_field(nb.switch_info(sb)[0], "mid"):
+                    reads_mid = True
+            for bi, t, p in nb.calls():
+                if mir.has(nb.term_call(t), lambda x: x[0] == "field" and x[2] == "mid"):
+                    reads_mid = True
+        if reads_mid:
+            r.ok({"function": fn.split("::")[-1], "filters": "routes whose section differs from the packet's MID"})
+        else:
+            r.violate(fn, "route:section-ignored", ctx.facts.body(fn).where(0),
+                      "%s chooses a route without looking at the route's media section: a packet that names another section (an unregistered "
+                      "MID) is handed to this one" % fn.split("::")[-1])
+    return r
+
+
+def r19_11(ctx):
+    """'delivered to at most one REGISTERED receiver': clear_listeners() is the registry's 'forget everything' (used when a
+    transport is discarded or the connection closes). Every map it leaves behind keeps routing: the MID map was left
+    out, so a packet naming a MID registered before was still handed to the old receiver - and re-bound its SSRC. Decided:
+    clear_listeners clears every collection field of ListenerRegistry (the field list is read from the type)."""
+    r = RuleResult("R19.11", "K6", "clear_listeners forgets every routing table of the registry")
+    if not R19_11_STRICT:
+        r.ok({"status": "armed together with the repair"})
+        return r
+    adt = ctx.facts.adts.get("transports::rtp::ListenerRegistry")
+    if not adt:
+        raise core.CheckerError("R19.11: ListenerRegistry not found")
+    fields = [f["n"] for f in adt["variants"][0]["fields"] if f["ty"].startswith(("std::collections::", "std::vec::Vec"))]
+    b = ctx.body("transports::rtp::RtpTransport::clear_listeners")
+    r.scope.append(b.name)
+    cleared = set()
+    for bi, t, p in b.calls():
+        if p and p.split("::")[-1] in ("clear", "drain", "take") and t["a"]:
+            a0 = b.term_operand(t["a"][0])
+            for f in fields:
+                if mir.has_field(a0, f):
+                    cleared.add(f)
+    r.need("collection fields of ListenerRegistry", len(fields), 4)
+    for f in fields:
+        if f in cleared:
+            r.ok({"field": f, "cleared": True})
+        else:
+            r.violate(b.name, "clear:%s" % f, b.where(0), "clear_listeners leaves `%s` populated: packets keep being routed to receivers that were cleared" % f)
+    return r
+
+
 def run(ctx):
-    return [r19_1(ctx), r19_2(ctx), r19_3(ctx), r19_4(ctx), r19_5(ctx), r19_6(ctx), r19_7(ctx), r19_8(ctx), r19_9(ctx)]
+    return [r19_1(ctx), r19_2(ctx), r19_3(ctx), r19_4(ctx), r19_5(ctx), r19_6(ctx), r19_7(ctx), r19_8(ctx), r19_9(ctx), r19_10(ctx), r19_11(ctx)]
